@@ -869,8 +869,27 @@ def _staletrim_rule(chk, prog):
                     any(y.k == "mem" and y.field == "sched_id" for y in body) and not any(y.k == "break" for y in body) and \
                     not any(y.k == "return" for y in body):
                 full = True
-        if full:
+        # the full pass is triggered when the ring is about to grow; that test has to be the ring's own growth test
+        # (count + 1 >= capacity - one slot always stays free), or it never fires
+        rs = tu.funcs.get("janet_q_maybe_resize")
+        trig_ok = True
+        if full and rs is not None:
+            def norm(e):
+                return e.text().replace(" ", "").replace("(", "").replace(")", "")
+            grow = [norm(x) for x in rs.nodes if x.k == "bin" and x.op == ">=" and any(y.k == "mem" and y.field == "capacity" for y in x.walk())]
+            mine = [x for x in fn.nodes if x.k == "bin" and x.op in (">=", ">", "==") and any(y.k == "mem" and y.field == "capacity" for y in x.walk())]
+            import re as _re
+            shape = lambda t_: _re.sub(r"[A-Za-z_][A-Za-z_0-9]*(->[A-Za-z_]+)?", lambda m: "cap" if "capacity" in m.group(0) else "n", t_)
+            if grow and mine and not any(shape(norm(m)) == shape(g) for m in mine for g in grow):
+                trig_ok = False
+                chk.violation(rule, "ev.c", t, "trigger", mine[0].loc,
+                              "`%s` is meant to fire when the ring is full, but a ring is full at `%s` (janet_q_maybe_resize keeps one "
+                              "slot free): this test never holds, the pass over the whole ring never runs, and stale registrations "
+                              "behind a live waiter pile up again" % (mine[0].text()[:50], grow[0]))
+        if full and trig_ok:
             chk.ok(rule, "%s: has a pass over every entry of the ring" % t)
+        elif full:
+            pass
         else:
             chk.violation(rule, "ev.c", t, "head-only", fn.loc,
                           "%s only drops stale registrations at the head of the queue and stops at the first live one: behind a "
